@@ -922,5 +922,5 @@ def state_changed(old, new, comp, changed_check):
                 olds.append(po.get(k, False))
                 news.append(pn[k])
     if changed_check is None:
-        return any(bool(a) != bool(b) for a, b in zip(olds, news))
+        return any(a != b for a, b in zip(olds, news))
     return changed_check(olds, news)
